@@ -2,7 +2,7 @@
 # usage: tools/seedrun.sh <seeded-dir-name> <ID> [tier]  -- apply /verif/seeded/<name>/patch.diff to /repo, run check, undo
 name=$1; id=$2; tier=${3:-quick}
 git -C /repo apply /verif/seeded/$name/patch.diff || { echo "cannot apply"; exit 3; }
-cd /verif && VERIF_REPLAYS=/tmp/verif-mut-replays ./check $id $tier > /tmp/seedrun-$name-$id.log 2>&1; rc=$?
+cd /verif && VERIF_EVIDENCE=/tmp/verif-mut-evidence VERIF_REPLAYS=/tmp/verif-mut-replays ./check $id $tier > /tmp/seedrun-$name-$id.log 2>&1; rc=$?
 git -C /repo checkout -- .
 grep -a -v "^KNOWN-FINDING" /tmp/seedrun-$name-$id.log | cut -c1-600 | head -${LINES_MAX:-6}
 echo "== seeded $name on $id ($tier): exit=$rc"
